@@ -204,6 +204,7 @@ def run_model_and_steps(chk, prop, tier, pkey=None):
         run_steps4(chk, prop, tier, pk)
         run_steps5(chk, prop, tier, pk)
         run_steps6(chk, prop, tier, pk)
+        run_steps7(chk, prop, tier, pk)
     if pk == "C10":
         # cursor (iscan_open + iscan_next until the end, with its node-version callback) over 2-3 borders vs split, interior insert, collapse,
         # insert, remove, unlink + re-insert (YkConc4 programs k-n, p)
@@ -524,6 +525,54 @@ def run_steps6(chk, prop, tier, pk):
             at = int(m.group(1)) if m else 0
             chk.cov["divergences"] = chk.cov.get("divergences", 0) + 1
             log("DIVERGENCE property=%s at=step-level interior split %s event %d: %s (the code's access sequence differs from YkConc6; not a violation)" % (
+                prop, prog, at, lines[at - 1][:200] if 0 < at <= len(lines) else ""))
+
+STEP7 = [("rem:31,put:8,get:20", 1, "pre2"), ("rem:31,put:8,rem:20", 1, "pre2"), ("rem:31,put:8,get:20", 1, "random"), ("rem:31,put:8,get:20", 0, "random"),
+         ("rem:31,put:31,get:31", 0, "random"), ("rem:31,put:9,put:8", 1, "random"), ("rem:31,put:8,get:20", 1, "pct"), ("rem:31,put:8,put:21", 1, "pre2")]
+
+
+def run_steps7(chk, prop, tier, pk):
+    """S: two interior levels of YkConc7 on the real code (fan-out 15: root interior over an interior with two borders): collapse of the
+    inner interior (swap_child) vs split of its survivor vs descents, under random / PCT schedules and the directed schedule pre2; every
+    logged access must be the enabled model step with the same value (TraceConc7); LinOK, SwapOK, RootOpsOK and Quiescent are evaluated on
+    every state of the accepted executions."""
+    import os, re
+    from common import tlc, tlc_tail, build, run, BUILD
+    from tracecheck import write_cfg
+    exe = build("stepdrv7", ["stepdrv7.cpp"], sessions=16)
+    nruns = 24 if tier == "quick" else 200
+    keys = "{" + ", ".join(str(i) for i in range(1, 100)) + "}"
+    for pi, (prog, full, sched) in enumerate(STEP7[:4] if tier == "quick" else STEP7):
+        rc, o, err = run([exe, "prog=" + prog, "full=%d" % full, "runs=%d" % nruns, "seed=%d" % seed(), "sched=" + sched], timeout=300)
+        lines = o.splitlines()
+        if lines and '"op":"fault"' in lines[-1]:
+            chk.violation("fault", "implementation faulted in step-level two-level run %s: %s" % (prog, lines[-1]), chk.save_replay("fault_step7_%d.ndjson" % pi, "\n".join(lines[-30:])))
+            continue
+        if rc != 0 or any('"e":"abort"' in x for x in lines[-2:]):
+            if prop == "C09" and any('"e":"abort"' in x for x in lines[-2:]):
+                chk.violation("deadlock", "step-level two-level run %s did not complete: %s" % (prog, lines[-1][:300]), chk.save_replay("abort_step7_%d.ndjson" % pi, "\n".join(lines[-200:])))
+            else:
+                chk.error("stepdrv7 %s did not complete: %s" % (prog, (lines[-1] if lines else err)[:200]))
+            continue
+        tr = os.path.join(BUILD, "traces", "step7_%s_%d.ndjson" % (pk, pi))
+        open(tr, "w").write(o)
+        cfg = write_cfg(os.path.join(BUILD, "cfg", "tc7_%s_%d.cfg" % (pk, pi)), constants={"F": 15, "Keys": keys, "Threads": "{0, 1, 2}", "Prog": "<- ProgT",
+                        "InitS": "{2}", "InitE": "{18}", "InitR": "{80}", "UNLOCK_BEFORE_PARENT": "FALSE", "NO_INS_ON_INSERT": "FALSE", "NO_INS_ON_DELETE": "FALSE",
+                        "NO_CHILD_DEL_CHECK": "FALSE", "NO_PARENT_RECHECK_I": "FALSE"}, invariants=["LinOK", "RootOpsOK", "SwapOK", "Quiescent"], constraint="Record")
+        res = tlc("TraceConc7", cfg, env={"TRACE": tr}, workers=1, timeout=900, deque=True)
+        nr = sum(1 for x in lines if x.startswith('{"e":"reset"'))
+        chk.add_tlc(res, "step-level conformance of two interior levels (inner collapse / swap_child vs split vs descent), programs %s, S %s, schedule %s (%d runs, %d events)" % (prog, "full" if full else "half", sched, nr, len(lines)))
+        if res.ok:
+            chk.traces += nr
+            chk.cov["step_events_conforming"] = chk.cov.get("step_events_conforming", 0) + len(lines)
+        elif res.violated in ("LinOK", "RootOpsOK", "SwapOK", "Quiescent"):
+            rp = chk.save_replay("step7_%d_%s.txt" % (pi, res.violated), tlc_tail(res, 60))
+            chk.violation("step-trace-" + res.violated, "%s violated on a real execution (%s) followed step by step in YkConc7" % (res.violated, prog), rp)
+        else:
+            m = re.search(r'<<"STUCK", (\d+)', res.out)
+            at = int(m.group(1)) if m else 0
+            chk.cov["divergences"] = chk.cov.get("divergences", 0) + 1
+            log("DIVERGENCE property=%s at=step-level two interior levels %s event %d: %s (the code's access sequence differs from YkConc7; not a violation)" % (
                 prop, prog, at, lines[at - 1][:200] if 0 < at <= len(lines) else ""))
 
 
